@@ -23,7 +23,7 @@ Lemma key_contract : forall k a b v,
   akey_same k (restore k (Leaf (fst (transform k a)) (snd (transform k a)) v)) a.
 Proof.
   intros k a b v Ha Hb.
-  destruct k as [|w|w|w| |s].
+  destruct k as [|w|w|w| |s|enc dec].
   - (* KAlpha *)
     destruct a as [la| | | | |]; cbn [akey_ok] in Ha; try discriminate Ha.
     destruct b as [lb| | | | |]; cbn [akey_ok] in Hb; try discriminate Hb.
@@ -103,6 +103,8 @@ Proof.
     destruct (schema_contract s va vb Hs Ta Tb) as (A & B & C & D & E).
     split; [exact A|]. split; [exact B|].
     split; [intros _; split; [exact C | exact D] | exact E].
+  - (* KCodec: no key is valid by akey_ok; the codec contract is a hypothesis of Proofs/CodecFacts.v *)
+    destruct a; cbn [akey_ok] in Ha; discriminate Ha.
 Qed.
 
 (* ------------------------------------------------------------------ *)
